@@ -30,8 +30,9 @@ use mc_core::{Ctx, Report, catch, par_map, permutations};
 use mithril_client::{MessageBuilder, MithrilCertificate, MithrilStakeDistribution};
 use mithril_common::crypto_helper::{
     KesEvolutions, KesPeriod, KesSigner, KesSignerStandard, ProtocolAggregateVerificationKey,
-    ProtocolAggregateVerificationKeyForConcatenation, ProtocolInitializer, ProtocolKey, ProtocolOpCert,
-    ProtocolSignerVerificationKeyForConcatenation, ProtocolSignerVerificationKeySignatureForConcatenation,
+    ProtocolAggregateVerificationKeyForConcatenation, ProtocolInitializer, ProtocolKey, ProtocolKeyRegistration,
+    ProtocolOpCert, ProtocolSignerVerificationKeyForConcatenation, ProtocolSignerVerificationKeySignatureForConcatenation,
+    SignerRegistrationParameters,
 };
 use mithril_common::entities::{
     ProtocolMessage, ProtocolMessagePartKey, ProtocolParameters, Signer, SignerWithStake, SingleSignature,
@@ -41,8 +42,8 @@ use mithril_common::protocol::{MultiSigner, SignerBuilder};
 use mithril_common::test::builder::MithrilFixtureBuilder;
 use mithril_common::test::double::Dummy;
 use mithril_stm::{
-    AggregateVerificationKeyForConcatenation, Clerk, Initializer, KeyRegistration, MithrilMembershipDigest,
-    Parameters, VerificationKeyProofOfPossessionForConcatenation,
+    AggregateVerificationKeyForConcatenation, Clerk, ClosedKeyRegistration, ClosedRegistrationEntry, Initializer,
+    KeyRegistration, MithrilMembershipDigest, Parameters, VerificationKeyProofOfPossessionForConcatenation,
 };
 use rand_chacha::ChaCha20Rng;
 use rand_core::SeedableRng;
@@ -82,6 +83,9 @@ struct Party {
     stm_init: Initializer,
     /// the signer node's stored protocol initializer, one per stake value
     inits: BTreeMap<u64, ProtocolInitializer>,
+    /// this pool's KES signature over the key of every OTHER pool member (a pool announcing a key
+    /// that another pool already registered), indexed by the other member
+    kes_sig_over_key_of: Vec<Option<ProtocolSignerVerificationKeySignatureForConcatenation>>,
 }
 
 struct World {
@@ -172,13 +176,15 @@ fn build_world(threads: usize, candidates: usize) -> World {
         }
     }
 
-    let mut parties = vec![];
+    let mut parties: Vec<Party> = vec![];
+    let mut kes_signers = vec![];
     for (i, &cand) in chosen.iter().enumerate() {
         let f = &fx[i];
         let kes_signer = Arc::new(KesSignerStandard::new(
             f.kes_secret_key_path.clone().expect("certified fixture has a KES key"),
             f.operational_certificate_path.clone().expect("certified fixture has an operational certificate"),
         )) as Arc<dyn KesSigner>;
+        kes_signers.push(kes_signer.clone());
         let mut inits = BTreeMap::new();
         for s in STAKES {
             let init = ProtocolInitializer::setup(params, Some(kes_signer.clone()), Some(KesPeriod(0)), s, &mut candidate_rng(cand))
@@ -206,7 +212,19 @@ fn build_world(threads: usize, candidates: usize) -> World {
             opcert: f.signer_with_stake.operational_certificate.clone(),
             stm_init,
             inits,
+            kes_sig_over_key_of: vec![],
         });
+    }
+    let keys: Vec<ProtocolSignerVerificationKeyForConcatenation> = parties.iter().map(|p| p.vk).collect();
+    for (j, p) in parties.iter_mut().enumerate() {
+        for (i, k) in keys.iter().enumerate() {
+            p.kes_sig_over_key_of.push(if i == j {
+                None
+            } else {
+                let (sig, _) = kes_signers[j].sign(&k.to_bytes(), KesPeriod(0)).expect("KES signature over another pool's key");
+                Some(sig.into())
+            });
+        }
     }
     let mut msg = ProtocolMessage::new();
     msg.set_message_part(ProtocolMessagePartKey::SnapshotDigest, "c06-digest".to_string());
@@ -751,6 +769,250 @@ fn check_set(w: &World, set: &[Member], all_encodings_everywhere: bool) -> Repor
 }
 
 // ---------------------------------------------------------------------------------------------
+// arrival histories: submissions that are REFUSED must leave no trace in what is closed
+
+/// one submission that the registration must refuse: it arrives after `pos` genuine registrations
+/// (1 <= pos <= N) and announces the key of the member that arrived at index `refers` (< pos), either
+/// as an exact re-send or with another stake
+#[derive(Clone, Copy, Debug, PartialEq, Eq, Hash)]
+struct Refused {
+    pos: usize,
+    refers: usize,
+    other_stake: bool,
+}
+
+const HISTORY_ROUTES: [&str; 2] = ["stm", "keyreg-wrapper"];
+
+fn refused_json(r: &[Refused]) -> Value {
+    json!(r.iter().map(|x| json!({"position": x.pos, "refers_to_arrival": x.refers, "kind": if x.other_stake { "registered-key-with-other-stake" } else { "exact-resend" }})).collect::<Vec<_>>())
+}
+
+struct HistOut {
+    closed: ClosedKeyRegistration,
+    out: Out,
+    /// for every refused submission: was it refused
+    refused: Vec<bool>,
+}
+
+/// a stake of the alphabet that none of the given stakes equals
+fn stake_other_than(taken: &[u64]) -> u64 {
+    *STAKES.iter().find(|s| !taken.contains(s)).expect("alphabet larger than any set of referred stakes")
+}
+
+/// Route `stm` (mithril-stm `KeyRegistration`) or `keyreg-wrapper` (mithril-common `KeyRegWrapper`, which stays
+/// usable after a refused `register`): the genuine registrations arrive in `order`, the refused submissions where
+/// they say; then close. Slots are looked up with `get_signer_index_for_registration` (what `try_create_signer`
+/// uses); with `full_signers` every member also builds its signer, signs, and the slot the signature carries is
+/// required to be the looked-up one.
+fn run_history(w: &World, route: &str, order: &[Member], refused: &[Refused], full_signers: bool) -> Result<HistOut, String> {
+    let r = catch(|| -> Result<HistOut, String> {
+        let mut was_refused = vec![];
+        let closed = match route {
+            "stm" => {
+                let mut kr = KeyRegistration::initialize();
+                for k in 0..=order.len() {
+                    for x in refused.iter().filter(|x| x.pos == k) {
+                        let (i, s) = order[x.refers];
+                        let stake = if x.other_stake { stake_other_than(&[s]) } else { s };
+                        was_refused.push(kr.register(stake, &stm_key(w, i, "mem")?).is_err());
+                    }
+                    if let Some(&(i, s)) = order.get(k) {
+                        kr.register(s, &stm_key(w, i, "mem")?).map_err(es("KeyRegistration::register"))?;
+                    }
+                }
+                kr.close_registration(&w.params).map_err(es("close_registration"))?
+            }
+            "keyreg-wrapper" => {
+                // a pool outside the set announces the registered key under its own certificate; its stake differs
+                // from the stake of every member it copies
+                let outsider = (0..POOL).find(|j| order.iter().all(|m| m.0 != *j)).ok_or("no pool outside the set")?;
+                let copied: Vec<u64> = refused.iter().filter(|x| x.other_stake).map(|x| order[x.refers].1).collect();
+                let mut dist: Vec<(String, u64)> = order.iter().map(|m| (w.parties[m.0].party_id.clone(), m.1)).collect();
+                dist.push((w.parties[outsider].party_id.clone(), stake_other_than(&copied)));
+                let params_of = |owner: usize, key_of: usize| SignerRegistrationParameters {
+                    party_id: Some(w.parties[owner].party_id.clone()),
+                    operational_certificate: w.parties[owner].opcert.clone(),
+                    verification_key_for_concatenation: w.parties[key_of].vk,
+                    verification_key_signature_for_concatenation: if owner == key_of {
+                        w.parties[owner].kes_sig
+                    } else {
+                        w.parties[owner].kes_sig_over_key_of[key_of]
+                    },
+                    kes_evolutions: Some(KesEvolutions(0)),
+                };
+                let mut kr = ProtocolKeyRegistration::init(&dist);
+                for k in 0..=order.len() {
+                    for x in refused.iter().filter(|x| x.pos == k) {
+                        let i = order[x.refers].0;
+                        let owner = if x.other_stake { outsider } else { i };
+                        was_refused.push(kr.register(params_of(owner, i)).is_err());
+                    }
+                    if let Some(&(i, _)) = order.get(k) {
+                        kr.register(params_of(i, i)).map_err(es("KeyRegWrapper::register"))?;
+                    }
+                }
+                kr.close(&w.params).map_err(es("KeyRegWrapper::close"))?
+            }
+            other => return Err(format!("unknown history route {other}")),
+        };
+        let clerk = Clerk::<D>::new_clerk_from_closed_key_registration(&w.params, &closed);
+        let avk = clerk.compute_aggregate_verification_key();
+        let mut slots = vec![];
+        for &(i, s) in order {
+            let entry = ClosedRegistrationEntry::new(w.parties[i].vk.vk, s);
+            let mut slot = match closed.get_signer_index_for_registration(&entry) {
+                Some(ix) => Slot::At(ix),
+                None => Slot::NoSigner("not in the closed registration".into()),
+            };
+            if full_signers {
+                let mut init = w.parties[i].stm_init.clone();
+                init.stake = s;
+                let signed = match init.try_create_signer::<D>(&closed) {
+                    Ok(signer) => match signer.sign(&w.msg_bytes) {
+                        Some(sig) => Slot::At(sig.signer_index),
+                        None => Slot::NoSignature,
+                    },
+                    Err(e) => Slot::NoSigner(format!("try_create_signer: {e:#}")),
+                };
+                if signed != slot {
+                    slot = Slot::NoSigner(format!("looked-up slot {slot:?} but the signer gives {signed:?}"));
+                }
+            }
+            slots.push((i, slot));
+        }
+        slots.sort_by_key(|x| x.0);
+        Ok(HistOut { closed, out: out_of(avk.to_concatenation_aggregate_verification_key(), Some(slots))?, refused: was_refused })
+    });
+    match r {
+        Ok(r) => r,
+        Err(p) => Err(format!("panic: {p} at {}", mc_core::last_panic_location())),
+    }
+}
+
+/// the refused submissions tried on one arrival order of `n` members
+fn refused_variants(n: usize, all_references: bool, pairs: bool) -> Vec<Vec<Refused>> {
+    let mut out = vec![];
+    for pos in 1..=n {
+        for refers in 0..pos {
+            if all_references || refers == 0 || refers + 1 == pos {
+                for other_stake in [false, true] {
+                    out.push(vec![Refused { pos, refers, other_stake }]);
+                }
+            }
+        }
+    }
+    if pairs {
+        for p1 in 1..=n {
+            for p2 in p1..=n {
+                for k1 in [false, true] {
+                    for k2 in [false, true] {
+                        out.push(vec![Refused { pos: p1, refers: p1 - 1, other_stake: k1 }, Refused { pos: p2, refers: 0, other_stake: k2 }]);
+                    }
+                }
+            }
+        }
+    }
+    out
+}
+
+/// Arrival-history dimension for one set. What is closed must be what the same order closes when the refused
+/// submissions never arrive. Plan (order -> refused submissions tried):
+/// * basic: `stm` identity + reversed, `keyreg-wrapper` identity: one refused submission of either kind at every
+///   position, referring to the first and to the latest registered member;
+/// * full:  `stm` identity: referring to every registered member, plus pairs of refused submissions; reversed: every
+///   registered member; every other rotation: first/latest. `keyreg-wrapper` identity: every registered member;
+///   reversed: first/latest.
+fn arrival_histories(w: &World, set: &[Member], full_plan: bool) -> Report {
+    let mut rep = Report::new("exploration", "");
+    let n = set.len();
+    let identity: Vec<usize> = (0..n).collect();
+    let reversed: Vec<usize> = (0..n).rev().collect();
+    // (route, order, refer to every registered member, pairs)
+    let mut plan: Vec<(&'static str, Vec<usize>, bool, bool)> = vec![];
+    plan.push(("stm", identity.clone(), full_plan, full_plan));
+    plan.push(("keyreg-wrapper", identity.clone(), full_plan, false));
+    if reversed != identity {
+        plan.push(("stm", reversed.clone(), full_plan, false));
+        if full_plan {
+            plan.push(("keyreg-wrapper", reversed.clone(), false, false));
+            for r in 1..n {
+                let rot: Vec<usize> = (0..n).map(|k| (k + r) % n).collect();
+                if rot != reversed {
+                    plan.push(("stm", rot, false, false));
+                }
+            }
+        }
+    }
+    for (route, perm, all_references, pairs) in &plan {
+        let route = *route;
+        let order = order_of(set, perm);
+        {
+            rep.eval();
+            let base = match run_history(w, route, &order, &[], true) {
+                Ok(b) => b,
+                Err(_) => {
+                    rep.outcome("computation-failed");
+                    continue;
+                }
+            };
+            let variants = refused_variants(n, *all_references, *pairs);
+            for (vi, refused) in variants.iter().enumerate() {
+                rep.eval();
+                // every member builds its signer and signs in the histories that close right after a refusal
+                let full = vi + 1 == variants.len() || refused.iter().all(|x| x.pos == n && x.refers + 1 == n);
+                let replay = json!({"sets": [set_json(set)], "history": {"route": route, "order": perm, "refused": refused_json(refused)}});
+                let describe = format!(
+                    "set {}: route {route}, arrival order {:?}, refused submission(s) {}",
+                    set_json(set), order, refused_json(refused)
+                );
+                let h = match run_history(w, route, &order, refused, full) {
+                    Ok(h) => h,
+                    Err(e) => {
+                        rep.outcome("history:differs");
+                        rep.violation(
+                            &format!("C06/refused-registration-breaks-registration:{route}"),
+                            format!("{describe}: the same order without them closes, with them the registration fails: {e}"),
+                            replay,
+                        );
+                        continue;
+                    }
+                };
+                if h.refused.iter().any(|r| !*r) {
+                    // accepted: another registered set; not this oracle's business
+                    rep.outcome("refusable-submission:accepted");
+                    continue;
+                }
+                rep.outcome_n("refusable-submission:refused", h.refused.len() as u64);
+                rep.nontrivial(&("H", route, set, perm, refused));
+                let key = if h.out.total != base.out.total {
+                    Some(("changes-total-stake", format!("total stake {} instead of {}", h.out.total, base.out.total)))
+                } else if h.out.avk != base.out.avk || h.out.json_hex != base.out.json_hex {
+                    Some(("changes-avk", format!("aggregate key {} instead of {}", hex::encode(&h.out.avk), hex::encode(&base.out.avk))))
+                } else if h.out.slots != base.out.slots {
+                    Some(("changes-slot", format!("signer slots {:?} instead of {:?}", h.out.slots, base.out.slots)))
+                } else if h.closed != base.closed {
+                    Some(("changes-closed-registration", "the closed registrations are not equal".to_string()))
+                } else {
+                    None
+                };
+                match key {
+                    None => rep.outcome("history:same-as-without-refusal"),
+                    Some((k, what)) => {
+                        rep.outcome("history:differs");
+                        rep.violation(
+                            &format!("C06/refused-registration-{k}:{route}"),
+                            format!("{describe}: every one was refused, yet what is closed differs from the same order without them: {what}"),
+                            replay,
+                        );
+                    }
+                }
+            }
+        }
+    }
+    rep
+}
+
+// ---------------------------------------------------------------------------------------------
 // the enumerated families
 
 /// all distinct arrangements of `n` elements drawn from the multiset `pool`
@@ -924,7 +1186,14 @@ pub fn run(ctx: &Ctx) -> ! {
          text, total stake and every member's signer slot (read from a signature it makes), all of which must be identical \
          inside a set, and every signature must be accepted by the aggregator built in another order; then one key per set of \
          the whole lattice (all subsets of sizes 1-5 x all stake words over {1,2,3,10} for N<=3 and {1,2,3} for N>=4; thorough: over {1,2,3,10,2^53+1} for every N) is computed \
-         on two routes in opposite orders and all keys must be pairwise distinct. A case (set, order, route, encoding) is \
+         on two routes in opposite orders and all keys must be pairwise distinct. Arrival histories: for every set of the family, \
+         on the identity and reversed arrival order (thorough: also every rotation), one submission that must be REFUSED (exact \
+         re-send of a registered (key, stake); a registered key with another stake / announced by another pool) is inserted at \
+         every position, referring to the first and to the latest registered member (thorough, for N<=3 and the four-member sets \
+         of the quick family: to every registered member, and pairs of refused submissions), on mithril-stm's KeyRegistration \
+         and on mithril-common's KeyRegWrapper; once every one \
+         was refused, the closed registration, total stake, key and every member's slot must equal those of the same order \
+         without them. A case (set, order, route, encoding) is \
          non-trivial when the registration closed, a key came out and - on the signing routes - every member obtained a \
          signature carrying its slot; distinct = distinct (set, order, route, encoding)",
     );
@@ -955,6 +1224,7 @@ pub fn run(ctx: &Ctx) -> ! {
     rep.assume("phi_f = 1 so that every member wins a lottery and its slot can be read from a real signature; the key does not depend on the protocol parameters in this build (no future_snark)");
     rep.assume("the client route yields a key only (a client has no slots); slots are compared between the stm and signer routes, and the aggregator's view of a slot through MultiSigner::verify_single_signature of signatures made under another registration order");
     rep.assume("total stake is taken to mean the sum of the registered stakes");
+    rep.assume("arrival histories: a submission counts as refused when register returns an error; one that is accepted on the tree under test makes another registered set and is only counted (refusable-submission:accepted). The SignerBuilder routes abort at the first refusal and cannot reach a closed registration after one; mithril-stm's KeyRegistration and mithril-common's KeyRegWrapper can");
     rep.assume("keys come from a constant-seeded ChaCha20 RNG; KES material from the repository's certified test fixture");
 
     if let Some(path) = &ctx.replay {
@@ -967,6 +1237,7 @@ pub fn run(ctx: &Ctx) -> ! {
         for s in &sets {
             if s.len() <= 4 {
                 rep.merge(check_set(&w, s, true));
+                rep.merge(arrival_histories(&w, s, true));
             }
         }
         level_a(&w, &sets, threads, &mut rep);
@@ -983,6 +1254,14 @@ pub fn run(ctx: &Ctx) -> ! {
         rep.merge(p);
     }
     eprintln!("[C06] level B ({} sets) done at {:.1}s", b_sets.len(), ctx.elapsed_s());
+    // thorough: the full plan for every set of up to three members and for the four-member sets of the quick family,
+    // the basic plan for the other four-member sets
+    let core: std::collections::BTreeSet<Vec<Member>> = level_b_sets(false).into_iter().collect();
+    let parts = par_map(&schedule, threads, |_, s| arrival_histories(&w, s, thorough && (s.len() <= 3 || core.contains(*s))));
+    for p in parts.into_iter().rev() {
+        rep.merge(p);
+    }
+    eprintln!("[C06] arrival histories ({} sets) done at {:.1}s", b_sets.len(), ctx.elapsed_s());
     let a_sets = level_a_sets(thorough);
     level_a(&w, &a_sets, threads, &mut rep);
     eprintln!("[C06] level A ({} sets) done at {:.1}s", a_sets.len(), ctx.elapsed_s());
@@ -1005,6 +1284,15 @@ pub fn run(ctx: &Ctx) -> ! {
             "level_A_sets (one key each, distinctness)": a_sets.len(),
             "level_A_sets_by_size": by_size(&a_sets),
             "pool_size": POOL,
+            "arrival_histories": {
+                "sets": b_sets.len(),
+                "routes": HISTORY_ROUTES,
+                "plan": if thorough { "full plan for N<=3 and for the four-member sets of the quick family, basic plan for the other four-member sets" } else { "basic plan" },
+                "basic_plan": "stm: identity + reversed order, keyreg-wrapper: identity; one refused submission at every position, referring to the first and the latest registered member",
+                "full_plan": "stm identity: referring to every registered member + pairs of refused submissions; stm reversed: every registered member; stm other rotations: first/latest; keyreg-wrapper identity: every registered member, reversed: first/latest",
+                "refused_submission_kinds": ["exact-resend", "registered-key-with-other-stake"],
+                "positions": "after 1..N genuine registrations",
+            },
         }),
     );
     rep.finish(ctx)
